@@ -124,6 +124,8 @@ type abacoSimWorld struct {
 	running  bool // run phase (after StartRun began)
 	as       *AbacoSource
 
+	nStalls     int
+	nSleeps     int
 	tickPackets int
 	ticksSeen   int
 	nLost       int
@@ -608,7 +610,8 @@ func (p *abacoSimProducer) ReadAllPackets() ([]*packets.Packet, error) {
 		w.tickPackets = 0
 	}
 	if w.faultWindowOpen() {
-		if w.stallOn && simrt.Chance(1, 14) {
+		if w.stallOn && w.nStalls < 4 && simrt.Chance(1, 14) { // (a stall costs up to 3000 steps of the run's budget)
+			w.nStalls++
 			d := time.Duration(60+simrt.DrawFault(840)) * time.Millisecond
 			steps := int(d / w.delta)
 			if steps > 3000 {
@@ -625,7 +628,8 @@ func (p *abacoSimProducer) ReadAllPackets() ([]*packets.Packet, error) {
 				simrt.Hit("stall-held-the-reader")
 			}
 		}
-		if w.sleepOn && simrt.Chance(1, 18) {
+		if w.sleepOn && w.nSleeps < 6 && simrt.Chance(1, 18) {
+			w.nSleeps++
 			d := time.Duration(1+simrt.DrawFault(5))*abacoSimTick + time.Duration(simrt.DrawFault(50))*time.Millisecond
 			w.env.Op("read of producer %d takes %v", p.id, d)
 			simrt.Fault("slow-read")
